@@ -127,14 +127,14 @@ func c03Kinds() []c03Kind {
 			verifrt.Assert(out.V == in.V, "C03.value")
 		}},
 		{"string", func(db *gorm.DB, s *Store) {
-			in := KString{V: verifrt.Bytes("v", 2)}
+			in := KString{V: verifrt.Bytes("v", 2+2*verifrt.Tier())}
 			ok(db.Create(&in), "create")
 			var out KString
 			ok(db.First(&out), "first")
 			verifrt.Assert(out.V == in.V, "C03.value")
 		}},
 		{"bytes", func(db *gorm.DB, s *Store) {
-			in := KBytes{V: []byte(verifrt.Bytes("v", 2))}
+			in := KBytes{V: []byte(verifrt.Bytes("v", 2+2*verifrt.Tier()))}
 			ok(db.Create(&in), "create")
 			var out KBytes
 			ok(db.First(&out), "first")
@@ -188,7 +188,7 @@ func c03Kinds() []c03Kind {
 			}
 		}},
 		{"null-string", func(db *gorm.DB, s *Store) {
-			in := KNullString{V: sql.NullString{String: verifrt.Bytes("v", 2), Valid: verifrt.Bool("valid")}}
+			in := KNullString{V: sql.NullString{String: verifrt.Bytes("v", 2+2*verifrt.Tier()), Valid: verifrt.Bool("valid")}}
 			ok(db.Create(&in), "create")
 			var out KNullString
 			ok(db.First(&out), "first")
